@@ -1010,35 +1010,65 @@ def translateCall (w : World) (earlier : List Call) (call : Call) (o : Out) : Tr
     | none => (.ok, o')
     | some m => (.failed m, o')
 
-/-- The `for path in input_paths` loop of `main`. -/
-def mainLoop (w : World) (cliFrom : Option Fmt) (to : Fmt) :
-    List InputPath → Bool → List (InputPath × Call) → Out → Run
-  | [], _, calls, o =>
-    -- `main` returns: `output` is dropped, `BufWriter::drop` flushes (errors ignored), exit status 0
-    { exit := .code 0, stderr := [], calls := calls, out := (flushBuf w.fd o).2 }
-  | path :: rest, stdinUsed, calls, o =>
-    match path.open w.fs with
-    | .error msg => exitWith 1 (bailPathLine path msg) calls o
-    | .ok input =>
-      if input = .stdin ∧ stdinUsed = true then exitWith 1 (bailLine stdinTwice) calls o
-      else
-        let «from» := match cliFrom with
-          | some f => some f
-          | none => path.extensionFormat
-        let call : Call := { data := input.data w.stdin, «from» := «from», to := to }
-        let calls' := calls ++ [(path, call)]
-        match translateCall w (calls.map (·.2)) call o with
-        | (.killed, o1) => { exit := .sigpipe, stderr := [], calls := calls', out := o1 }
-        | (.failed msg, o1) => exitWith 1 (bailPathLine path msg) calls' o1
-        | (.ok, o1) =>
-          if w.perInputFlush then
-            match Writer.flush w.fd o1 with
-            | (.killedBySigpipe, o2) => { exit := .sigpipe, stderr := [], calls := calls', out := o2 }
-            | (.returned (.error e), o2) => exitWith 1 (bailLine e.display) calls' o2
-            | (.returned (.ok ()), o2) =>
-              mainLoop w cliFrom to rest (stdinUsed || (input = .stdin)) calls' o2
-          else
-            mainLoop w cliFrom to rest (stdinUsed || (input = .stdin)) calls' o1
+/-- The locals of `main` that live across loop iterations: `stdin_used`, the
+library calls started so far (in the Rust code: the state of `translator`),
+and the output stack. -/
+structure LoopSt where
+  stdinUsed : Bool
+  calls : List (InputPath × Call)
+  out : Out
+  deriving DecidableEq, Repr
+
+def LoopSt.init : LoopSt := { stdinUsed := false, calls := [], out := Out.init }
+
+/-- How one iteration of the loop ends. -/
+inductive StepR where
+  /-- the input was translated (and flushed): on to the next one -/
+  | next (s : LoopSt)
+  /-- the process ended inside this iteration -/
+  | stop (r : Run)
+  deriving DecidableEq, Repr
+
+/-- `args.from.or_else(|| path.extension_format())`. -/
+def resolveFrom (cliFrom : Option Fmt) (path : InputPath) : Option Fmt :=
+  match cliFrom with
+  | some f => some f
+  | none => path.extensionFormat
+
+/-- The body of `for path in input_paths { … }`. -/
+def step (w : World) (cliFrom : Option Fmt) (to : Fmt) (s : LoopSt) (path : InputPath) : StepR :=
+  match path.open w.fs with
+  | .error msg => .stop (exitWith 1 (bailPathLine path msg) s.calls s.out)
+  | .ok input =>
+    if input = .stdin ∧ s.stdinUsed = true then .stop (exitWith 1 (bailLine stdinTwice) s.calls s.out)
+    else
+      let call : Call := { data := input.data w.stdin, «from» := resolveFrom cliFrom path, to := to }
+      let calls' := s.calls ++ [(path, call)]
+      let used := s.stdinUsed || (input = .stdin)
+      match translateCall w (s.calls.map (·.2)) call s.out with
+      | (.killed, o1) => .stop { exit := .sigpipe, stderr := [], calls := calls', out := o1 }
+      | (.failed msg, o1) => .stop (exitWith 1 (bailPathLine path msg) calls' o1)
+      | (.ok, o1) =>
+        if w.perInputFlush then
+          -- `translator.flush()` forwards to the writer's `flush`
+          match Writer.flush w.fd o1 with
+          | (.killedBySigpipe, o2) => .stop { exit := .sigpipe, stderr := [], calls := calls', out := o2 }
+          | (.returned (.error e), o2) => .stop (exitWith 1 (bailLine e.display) calls' o2)
+          | (.returned (.ok ()), o2) => .next { stdinUsed := used, calls := calls', out := o2 }
+        else .next { stdinUsed := used, calls := calls', out := o1 }
+
+/-- `main` returns after the loop: `output` is dropped, `BufWriter::drop`
+flushes what is buffered (errors ignored), exit status 0. -/
+def finish (w : World) (s : LoopSt) : Run :=
+  { exit := .code 0, stderr := [], calls := s.calls, out := (flushBuf w.fd s.out).2 }
+
+/-- The `for path in input_paths` loop of `main`, and the return from `main`. -/
+def mainLoop (w : World) (cliFrom : Option Fmt) (to : Fmt) : List InputPath → LoopSt → Run
+  | [], s => finish w s
+  | path :: rest, s =>
+    match step w cliFrom to s path with
+    | .next s' => mainLoop w cliFrom to rest s'
+    | .stop r => r
 
 /-- `let _ = write!(io::stdout().lock(), …); process::exit(0)`: help and
 version bypass `pipecheck::Writer` and the `BufWriter`, and ignore errors. -/
@@ -1068,6 +1098,6 @@ def run (w : World) (args : List Str) : Run :=
   | .ok paths «from» to =>
     if w.isTty ∧ unsafeForTerminal to = true then
       exitWith 1 (bailLine ("refusing to output ".toList ++ to.display ++ " to a terminal".toList)) [] Out.init
-    else mainLoop w «from» to (inputPaths paths) false [] Out.init
+    else mainLoop w «from» to (inputPaths paths) LoopSt.init
 
 end Xt.Cli
